@@ -249,7 +249,7 @@ def step (k : Nat) (rec : Sem1) : Sem1
     | some x => if inRange a b x then .done true { c with pos := c.pos + 1 } [] else failT c
     | none => failT c
   | .ident name tag, c => withTag tag c (callRule g rec name)
-  | .rule name mod body, c => ruleParse rec name mod body c
+  | .rule name mod _ body, c => ruleParse rec name mod body c
   | .seq es, c => seqParse g rec k es c []
   | .choice es, c => choiceParse rec es c
   | .opt e, c =>
@@ -276,7 +276,7 @@ def step (k : Nat) (rec : Sem1) : Sem1
       let failedName : Option String :=
         match e with
         | .ident n _ => some n
-        | .rule n _ _ => some n
+        | .rule n _ _ _ => some n
         | _ => none
       if matched then
         -- `label = str(state.parser.rules[name].expression)`: the lookup cannot fail, the
